@@ -170,17 +170,24 @@ def replay_case(case, idx, seed, tier, want_trace=True, want_covers=False, famil
                                         detail))
                 if algo in GRAPH_ALGOS:
                     # C20: bond dimension at every inner cut = minimum cover of the raw incidence matrix (spec-computed)
-                    if offset == 0.0 or any(all(x == 0 for x in w) for w in distinct_words):
+                    # with an offset the table gets an extra identity row unless the (deduplicated) terms already contain
+                    # the identity word; then the spec's minimum cover is still the right prediction as long as the
+                    # offset does not cancel that term exactly
+                    bag_id = [t["c"] for t in case["terms"] if all(x == 0 for x in t["w"])]
+                    id_coef = (bag_id[0] if bag_id else 0) * scale.get(tuple([0] * N), 1.0)
+                    if offset == 0.0 or (bag_id and abs(id_coef - offset) > 1e-9 * max(1.0, abs(id_coef))):
                         bd = [int(x) for x in mpo.bond_dims]
                         exp = [1] + [int(x) for x in case["rawmin"]] + [1]
                         res["bonds_checked"] += 1
-                        # an offset that cancels the identity term exactly changes the table; only compare if not
-                        id_coef = sum(c for w, c in inp if all(x == 0 for x in w))
-                        if not (offset != 0.0 and abs(id_coef * scale.get(tuple([0] * N), 1.0) - offset) < 1e-12):
-                            if bd != exp:
-                                res["viol"].append((f"C20:bond-dims:{algo}",
-                                                    f"bond_dims {bd} differ from the minimum cover sizes {exp} of the term incidence matrix",
-                                                    detail))
+                        nl = [len({w[:cut] for w, _ in inp if any(t["w"] == list(w) for t in case["terms"])}) for cut in range(N + 1)]
+                        nr = [len({w[cut:] for w, _ in inp if any(t["w"] == list(w) for t in case["terms"])}) for cut in range(N + 1)]
+                        if bd != exp:
+                            res["viol"].append((f"C20:bond-dims:{algo}",
+                                                f"bond_dims {bd} differ from the minimum cover sizes {exp} of the term incidence matrix",
+                                                detail))
+                        elif any(bd[c] > min(nl[c], nr[c]) for c in range(1, N)):
+                            res["viol"].append((f"C20:bond-exceeds-partial-terms:{algo}",
+                                                f"bond_dims {bd} exceed the number of distinct left {nl} / right {nr} partial terms", detail))
                     if p == 0 and want_trace:
                         tr_terms = [[list(w), c] for w, c in inp] + ([[[0] * N, -int(offset)]] if offset else [])
                         ex = export_outs(mpo, basis, alphas)
